@@ -96,10 +96,16 @@ type fnSpec struct {
 	// stopAt: `if <this condition, as printed by go/printer> { return }` in a function without results ends the translation:
 	// the function is translated under the assumption that the condition holds (recordCut: no cut log configured)
 	stopAt string
+	// sixth round (iter.go)
+	round6 bool
+	// oracles: for an abstract parameter the methods outside the whitelist it may call: `path.Method(kinds)[=path]` (iter.go)
+	oracles map[string]string
+	// storage: for an abstract parameter the field paths that hold buffers (iter.go)
+	storage map[string]string
 }
 
 // groups in file order; a function may only call functions of its own or an earlier group
-var groups = []string{"", "Tak", "Over", "Move", "Sym", "AI", "FPA", "Eval", "Pos", "Road", "MoveGen", "SymMove", "Prove", "Apply", "Threat", "Heur", "Search"}
+var groups = []string{"", "Tak", "Over", "Move", "Sym", "AI", "FPA", "Eval", "Pos", "Road", "MoveGen", "SymMove", "Prove", "Apply", "Threat", "Heur", "Search", "MoveIter"}
 
 var whitelist = []fnSpec{
 	{dir: "bitboard", file: "bits.go", name: "Precompute", lean: "precompute"},
@@ -225,6 +231,13 @@ func init() {
 	}
 	whitelist = append(whitelist, whitelist4...)
 	whitelist = append(whitelist, whitelist5...)
+	for i := range whitelist6 {
+		whitelist6[i].round2 = true
+		whitelist6[i].round3 = true
+		whitelist6[i].round5 = true
+		whitelist6[i].round6 = true
+	}
+	whitelist = append(whitelist, whitelist6...)
 }
 
 // accessors: methods of abstract (non-translatable) parameters that may be read like a field.
@@ -289,6 +302,7 @@ const (
 	tBad
 	tMap  // Go map (search.go): Lean association list `List (K × V)`, elems = key, value
 	tSlot // pointer into a declared slice view (search.go): Lean `Option Nat` (the index; none = nil)
+	tOpaque // pointer to an abstract type handed on from an oracle (iter.go): `Option C_T`, C_T a type parameter (sname)
 )
 
 type ltype struct {
@@ -323,6 +337,8 @@ func (t ltype) lean() string {
 		return "List (" + t.elems[0].lean() + " × " + t.elems[1].lean() + ")"
 	case tSlot:
 		return "Option Nat"
+	case tOpaque:
+		return "Option " + t.sname
 	case tFunc:
 		var s []string
 		for _, e := range t.elems {
@@ -426,6 +442,8 @@ type tr struct {
 	slotAbs *absParam             // the parameter whose view `spec.slot` the slots point into
 	slotMut *absParam             // that parameter when the function also assigns through it
 	loads   map[string]bool       // atomic loads seen (one per path and function)
+	// sixth round (iter.go)
+	six *round6
 }
 
 // nm: the Lean name of the variable an identifier denotes
@@ -745,6 +763,9 @@ func (t *tr) declareViews(a *absParam, ty types.Type) {
 	t.declareViewList(a, ty, decl, "view")
 	t.declareViewList(a, ty, mdecl, "mut")
 	t.declareViewList(a, ty, ldecl, "late")
+	if t.spec.round6 && t.err == nil {
+		t.declareOracles(a, ty)
+	}
 }
 
 func (t *tr) declareViewList(a *absParam, ty types.Type, decl string, kind string) {
@@ -827,6 +848,11 @@ func (t *tr) expr(e ast.Expr) string {
 	tv := t.p.info.Types[e]
 	if tv.Value != nil && tv.Value.Kind() != constant.Bool {
 		return lit(tv.Value, t.typeOf(e))
+	}
+	if t.spec.round6 {
+		if out, ok := t.expr6(e); ok {
+			return out
+		}
 	}
 	if t.spec.round5 {
 		if out, ok := t.expr5(e); ok {
@@ -1246,6 +1272,11 @@ func (t *tr) shiftAmount(e ast.Expr) string {
 
 // binary translates e; rt is the Go type of the result (given explicitly: `x op= y` builds a synthetic node)
 func (t *tr) binary(e *ast.BinaryExpr, rt ltype) string {
+	if t.spec.round6 {
+		if out, ok := t.binary6(e); ok {
+			return out
+		}
+	}
 	if t.spec.round5 {
 		if out, ok := t.binary5(e, rt); ok {
 			return out
@@ -1475,6 +1506,11 @@ func (t *tr) stmts(ss []ast.Stmt, ret func() string) string {
 }
 
 func (t *tr) stmt1(s ast.Stmt, tail []ast.Stmt, ret func() string, cont func() string) string {
+	if t.spec.round6 {
+		if out, ok := t.stmt6(s, cont); ok {
+			return out
+		}
+	}
 	switch st := s.(type) {
 	case *ast.IfStmt:
 		if st.Init == nil && t.joinable(s, tail) {
@@ -1565,7 +1601,7 @@ func (t *tr) stmt1cps(s ast.Stmt, tail []ast.Stmt, ret func() string, cont func(
 					continue
 				}
 				lt := t.ltypeOf(obj.Type())
-				if lt.c == tStruct {
+				if lt.c == tStruct && !t.spec.round6 {
 					st := t.structs[lt.sname]
 					t.locals[n.Name] = st
 					for k := 0; k < st.NumFields(); k++ {
@@ -1760,6 +1796,10 @@ func (t *tr) stmt1cps(s ast.Stmt, tail []ast.Stmt, ret func() string, cont func(
 			t.loops = save
 			return r
 		}
+		if t.spec.round6 {
+			// a `break` whose innermost breakable statement is this switch is the switch's continuation (iter.go)
+			t.loops[depth-1].brk = cont
+		}
 		entry := t.snapshot()
 		// the body of clause i; a trailing `fallthrough` appends the next clause's body (mut.go)
 		var bodyOf func(i int) []ast.Stmt
@@ -1803,7 +1843,7 @@ func (t *tr) stmt1cps(s ast.Stmt, tail []ast.Stmt, ret func() string, cont func(
 	case *ast.ForStmt:
 		// first-round shapes keep their first-round translation (the bridges are written against it)
 		if s.Init == nil && s.Post == nil && s.Cond == nil {
-			if ownBreak(s.Body) {
+			if ownBreak(s.Body) || (t.spec.round6 && containsReturn(s.Body)) {
 				return t.newLoop(s, cont) // `for { .. break .. }`: a general loop whose condition is `true` (eval.go)
 			}
 			return t.foreverLoop(s)
@@ -1838,6 +1878,8 @@ func zero(lt ltype) string {
 		return "0"
 	case tBool:
 		return "false"
+	case tOpaque:
+		return "none"
 	}
 	return "?"
 }
@@ -2352,7 +2394,7 @@ func (t *tr) checkNames(root ast.Node, seen map[string]types.Object) {
 			// continuation-passing translation cannot let one capture the other); flattened local structs are keyed by
 			// their Go name and stay unique
 			_, st := namedStruct(obj.Type())
-			if _, isPtr := obj.Type().(*types.Pointer); st != nil && !isPtr {
+			if _, isPtr := obj.Type().(*types.Pointer); st != nil && !isPtr && !t.spec.round6 {
 				t.fail(id, "two variables named %s, one of them a struct value", id.Name)
 			}
 			if _, done := t.names[obj]; !done {
@@ -2465,6 +2507,9 @@ func (t *tr) signature(recv *ast.FieldList, ft *ast.FuncType) (ps []sigParam, rt
 				lt = t.mutType(a)
 			}
 		}
+		if lt.c == tBad && t.spec.round6 {
+			lt = t.opaqueOf(rty) // a pointer to an abstract type handed on from an oracle (iter.go)
+		}
 		if lt.c == tBad {
 			t.fail(fl, "result type")
 			return
@@ -2478,6 +2523,10 @@ func (t *tr) signature(recv *ast.FieldList, ft *ast.FuncType) (ps []sigParam, rt
 		}
 		for _, nm := range fl.Names {
 			t.named = append(t.named, t.nm(nm))
+			if t.spec.round6 {
+				pre += fmt.Sprintf("let %s : %s := %s\n", t.nm(nm), lt.lean(), zeroOf(lt))
+				continue
+			}
 			pre += fmt.Sprintf("let %s : %s := %s\n", t.nm(nm), lt.lean(), zero(lt))
 		}
 	}
@@ -2486,6 +2535,13 @@ func (t *tr) signature(recv *ast.FieldList, ft *ast.FuncType) (ps []sigParam, rt
 	}
 	if t.slotMut != nil {
 		rts = append(rts, t.mutType(t.slotMut)) // a slot function that also assigns through its receiver returns the fields too
+	}
+	if t.spec.round6 {
+		t.r6().resTypes = append([]ltype{}, rts...)
+		if a := t.theMutParam(ps); a != nil && t.slotMut == nil && t.retMut == nil && !t.errRes {
+			t.r6().resMut = a
+			rts = append(rts, t.mutType(a)) // results beside assigned fields (iter.go)
+		}
 	}
 	if len(rts) == 1 {
 		rt = rts[0]
@@ -2628,11 +2684,18 @@ func (g *generator) function1(p *pkgInfo, spec fnSpec, group int, fd *ast.FuncDe
 		// `(T, error)`: `.error ()` = a non-nil error was returned (its text is not modelled), `.ok v` = `v, nil`
 		resT = "Except Unit (" + resT + ")"
 	}
+	tps := t.typeParams()
 	for _, h := range t.helpers {
 		h = strings.ReplaceAll(h, "Option RESULT", "Option ("+resT+")")
 		h = strings.ReplaceAll(h, "(RESULT)", "("+resT+")")
+		if tps != "" && strings.HasPrefix(h, "def ") {
+			if k := strings.Index(h[4:], " "); k > 0 {
+				h = h[:4+k+1] + tps + h[4+k+1:]
+			}
+		}
 		def += h + "\n"
 	}
+	params = tps + params
 	body = strings.ReplaceAll(body, "(RESULT)", "("+resT+")")
 	if t.opt {
 		resT = "Option (" + resT + ")"
@@ -2848,7 +2911,14 @@ func genFuncs(ld *loader) (map[string]string, []error) {
 		var b strings.Builder
 		for i := 0; i < gi; i++ {
 			if upto, ok := groupImportsUpTo[gr]; ok && i > gidx[upto] {
-				break // a late group that only needs the early files (search.go): a failure in between does not touch it
+				// a late group that only needs the early files (search.go): a failure in between does not touch it
+				extra := false
+				for _, x := range groupImportsExtra[gr] {
+					extra = extra || x == groups[i]
+				}
+				if !extra {
+					continue
+				}
 			}
 			fmt.Fprintf(&b, "import TakVerif.Generated.%s\n", strings.TrimSuffix(groupFile(groups[i]), ".lean"))
 		}
